@@ -94,6 +94,12 @@ impl<VM: VMBinding> GCWorkScheduler<VM> {
 
     /// Ask all GC workers to exit for forking.
     pub fn stop_gc_threads_for_forking(self: &Arc<Self>) {
+        #[cfg(feature = "mmtk_verif")]
+        crate::verif::gc::ev(
+            crate::verif::gc::Kind::StopRequest,
+            WorkerGoal::StopForFork as usize,
+            0,
+        );
         self.worker_group.prepare_surrender_buffer();
 
         debug!("A mutator is requesting GC threads to stop for forking...");
@@ -102,6 +108,12 @@ impl<VM: VMBinding> GCWorkScheduler<VM> {
 
     /// Ask all GC workers to exit permanently.
     pub fn shutdown_gc_threads(self: &Arc<Self>) {
+        #[cfg(feature = "mmtk_verif")]
+        crate::verif::gc::ev(
+            crate::verif::gc::Kind::StopRequest,
+            WorkerGoal::Shutdown as usize,
+            0,
+        );
         self.worker_group.prepare_surrender_buffer();
 
         info!("A mutator is requesting GC threads to shut down...");
@@ -110,7 +122,17 @@ impl<VM: VMBinding> GCWorkScheduler<VM> {
 
     /// Surrender the `GCWorker` struct of a GC worker when it exits.
     pub fn surrender_gc_worker(&self, worker: Box<GCWorker<VM>>) {
+        #[cfg(feature = "mmtk_verif")]
+        let verif_ordinal = worker.ordinal;
+        #[cfg(feature = "mmtk_verif")]
+        crate::verif::gc::ev(crate::verif::gc::Kind::Surrender, verif_ordinal, 0);
         let all_surrendered = self.worker_group.surrender_gc_worker(worker);
+        #[cfg(feature = "mmtk_verif")]
+        crate::verif::gc::ev(
+            crate::verif::gc::Kind::SurrenderDone,
+            verif_ordinal,
+            all_surrendered as usize,
+        );
 
         if all_surrendered {
             debug!(
@@ -274,6 +296,12 @@ impl<VM: VMBinding> GCWorkScheduler<VM> {
                 new_packets = true;
             }
         }
+        #[cfg(feature = "mmtk_verif")]
+        crate::verif::gc::ev(
+            crate::verif::gc::Kind::SchedSentinels,
+            new_packets as usize,
+            0,
+        );
         new_packets
     }
 
@@ -316,6 +344,12 @@ impl<VM: VMBinding> GCWorkScheduler<VM> {
                 }
             }
         }
+        #[cfg(feature = "mmtk_verif")]
+        crate::verif::gc::ev(
+            crate::verif::gc::Kind::UpdateBuckets,
+            (buckets_updated && new_packets) as usize,
+            buckets_updated as usize,
+        );
         buckets_updated && new_packets
     }
 
@@ -365,10 +399,17 @@ impl<VM: VMBinding> GCWorkScheduler<VM> {
     }
 
     /// Get a schedulable work packet without retry.
+    #[cfg_attr(feature = "mmtk_verif", allow(unreachable_code))]
     fn poll_schedulable_work_once(&self, worker: &GCWorker<VM>) -> Steal<Box<dyn GCWork<VM>>> {
         let mut should_retry = false;
         // Try find a packet that can be processed only by this worker.
         if let Some(w) = worker.shared.designated_work.pop() {
+            #[cfg(feature = "mmtk_verif")]
+            crate::verif::gc::ev(
+                crate::verif::gc::Kind::DesignatedPop,
+                crate::verif::gc::pid(&*w),
+                crate::verif::gc::tag(w.get_type_name(), 0xff),
+            );
             return Steal::Success(w);
         }
         // Try get a packet from a work bucket.
@@ -382,6 +423,24 @@ impl<VM: VMBinding> GCWorkScheduler<VM> {
         // Try steal some packets from any worker
         for (id, worker_shared) in self.worker_group.workers_shared.iter().enumerate() {
             if id == worker.ordinal {
+                continue;
+            }
+            // Verification build: same `match` as the original one below, plus the (consumer,
+            // hence AFTER) event on success; the original `match` becomes unreachable.
+            #[cfg(feature = "mmtk_verif")]
+            {
+                match worker_shared.stealer.as_ref().unwrap().steal() {
+                    Steal::Success(w) => {
+                        crate::verif::gc::ev(
+                            crate::verif::gc::Kind::WorkerSteal,
+                            crate::verif::gc::pid(&*w),
+                            (id << 40) | crate::verif::gc::tag(w.get_type_name(), 0xff),
+                        );
+                        return Steal::Success(w);
+                    }
+                    Steal::Retry => should_retry = true,
+                    _ => {}
+                }
                 continue;
             }
             match worker_shared.stealer.as_ref().unwrap().steal() {
@@ -441,6 +500,12 @@ impl<VM: VMBinding> GCWorkScheduler<VM> {
     /// Called when the last worker parked.  `goal` allows this function to inspect and change the
     /// current goal.
     fn on_last_parked(&self, worker: &GCWorker<VM>, goals: &mut WorkerGoals) -> LastParkedResult {
+        #[cfg(feature = "mmtk_verif")]
+        crate::verif::gc::ev(
+            crate::verif::gc::Kind::LastParkedEnter,
+            goals.current().map_or(0xff, |g| g as usize),
+            worker.ordinal,
+        );
         let Some(ref current_goal) = goals.current() else {
             // There is no goal.  Find a request to respond to.
             return self.respond_to_requests(worker, goals);
@@ -473,6 +538,12 @@ impl<VM: VMBinding> GCWorkScheduler<VM> {
                     let concurrent_work_scheduled = self.on_gc_finished(worker);
 
                     // Clear the current goal
+                    #[cfg(feature = "mmtk_verif")]
+                    crate::verif::gc::ev(
+                        crate::verif::gc::Kind::GoalCompleted,
+                        WorkerGoal::Gc as usize,
+                        0,
+                    );
                     goals.on_current_goal_completed();
 
                     if concurrent_work_scheduled {
@@ -507,6 +578,12 @@ impl<VM: VMBinding> GCWorkScheduler<VM> {
             // No requests.  Park this worker, too.
             return LastParkedResult::ParkSelf;
         };
+        #[cfg(feature = "mmtk_verif")]
+        crate::verif::gc::ev(
+            crate::verif::gc::Kind::GoalStarted,
+            goal as usize,
+            worker.ordinal,
+        );
 
         match goal {
             WorkerGoal::Gc => {
@@ -559,6 +636,8 @@ impl<VM: VMBinding> GCWorkScheduler<VM> {
     ///
     /// Return `true` if any concurrent work packets have been scheduled.
     fn on_gc_finished(&self, worker: &GCWorker<VM>) -> bool {
+        #[cfg(feature = "mmtk_verif")]
+        crate::verif::gc::ev(crate::verif::gc::Kind::GcFinishedBegin, worker.ordinal, 0);
         // All GC workers must have parked by now.
         debug_assert!(!self.worker_group.has_designated_work());
         self.debug_assert_all_stw_buckets_empty();
@@ -631,8 +710,16 @@ impl<VM: VMBinding> GCWorkScheduler<VM> {
 
         // Set to NotInGC after everything, and right before resuming mutators.
         mmtk.set_gc_status(GcStatus::NotInGC);
+        #[cfg(feature = "mmtk_verif")]
+        crate::verif::gc::ev(crate::verif::gc::Kind::GcBeforeResume, worker.ordinal, 0);
         <VM as VMBinding>::VMCollection::resume_mutators(worker.tls);
 
+        #[cfg(feature = "mmtk_verif")]
+        crate::verif::gc::ev(
+            crate::verif::gc::Kind::GcFinishedEnd,
+            worker.ordinal,
+            concurrent_work_scheduled as usize,
+        );
         concurrent_work_scheduled
     }
 
@@ -653,6 +740,8 @@ impl<VM: VMBinding> GCWorkScheduler<VM> {
     }
 
     pub fn notify_mutators_paused(&self, mmtk: &'static MMTK<VM>) {
+        #[cfg(feature = "mmtk_verif")]
+        crate::verif::gc::ev(crate::verif::gc::Kind::MutatorsPaused, 0, 0);
         mmtk.gc_trigger.clear_request();
         let first_stw_bucket = &self.work_buckets[WorkBucketStage::FIRST_STW_STAGE];
         debug_assert!(!first_stw_bucket.is_open());
